@@ -343,25 +343,67 @@ Proof.
 Qed.
 
 (* ---------- one quiet step extends the world ---------- *)
+Lemma fired_ok_true R : forall es chs, fired_ok true R es chs = fired_safe R es chs.
+Proof. induction es as [|e es IH]; intros [|ch chs]; cbn; auto. now rewrite IH. Qed.
+
+Lemma run_effs_unfired R self args : forall es chs w w',
+  fired_ok false R es chs = true -> run_effs w self args es chs = Some w' -> w' = w.
+Proof.
+  induction es as [|e es IH]; intros [|ch chs] w w' Q H; cbn in H; try discriminate.
+  - now inversion H.
+  - cbn in Q. apply andb_prop in Q as [Q1 Q2]. rewrite orb_false_r in Q1.
+    unfold run_eff in H. rewrite Q1 in H. cbn in H. eapply IH; eauto.
+Qed.
+
+Lemma exec_body_ext cpf c m w recv args chs w2 self :
+  wf w -> fired_ok cpf (crecopy c) (meffs m) chs = true -> exec_body cpf c m w recv args chs = Some (w2, self) ->
+  ext w w2 /\ wf w2.
+Proof.
+  intros W Q H. unfold exec_body in H. destruct cpf.
+  - destruct (copy_obj w recv (crecopy c)) as [[w1 s1]|] eqn:CP; [|discriminate].
+    destruct (copy_obj_inv _ _ _ _ _ W CP) as (-> & E1 & W1 & F1).
+    destruct (run_effs w1 _ args (meffs m) chs) as [w2'|] eqn:RE; [|discriminate]. inversion H; subst.
+    assert (I1 : Inv w w1 (length (objs w)) (crecopy c)) by (split; [|split; [|split]]; auto).
+    rewrite fired_ok_true in Q.
+    destruct (run_effs_inv _ _ _ _ _ _ _ _ I1 Q RE) as (E2 & W2 & _ & _). auto.
+  - destruct (run_effs w recv args (meffs m) chs) as [w2'|] eqn:RE; [|discriminate]. inversion H; subst.
+    rewrite (run_effs_unfired _ _ _ _ _ _ _ Q RE). split; auto using ext_refl.
+Qed.
+
+Lemma finish_ext w self r wrap w' r' : wf w -> finish w self r wrap = Some (w', r') -> ext w w' /\ wf w'.
+Proof.
+  intros W H. destruct r; cbn in H.
+  - inversion H; subst. split; auto using ext_refl.
+  - eapply new_obj_inv; eauto using ext_refl.
+  - destruct (deref w self a); inversion H; subst. split; auto using ext_refl.
+  - discriminate.
+Qed.
+
 Theorem quiet_step_ext T w s w' r :
   wf w -> step_quiet T w s = true -> exec_step T w s = Some (w', r) -> ext w w' /\ wf w'.
 Proof.
   intros W Q H. destruct s as [cls l|recv mn args chs wrap]; cbn in H, Q; [|unfold exec_call in H].
   - eapply new_obj_inv; eauto using ext_refl.
-  - destruct (nth_error (objs w) recv) as [ob|] eqn:E; [|discriminate].
-    destruct (find_class T (ocls ob)) as [c|] eqn:FC; [|discriminate].
-    destruct (find_meth (cmeths c) mn) as [m|] eqn:FM; [|discriminate].
+  - destruct (lookup_call T w recv mn) as [[c m]|] eqn:LC; [|discriminate].
     destruct (forallb _ args); cbn [negb] in H; [|discriminate].
-    apply andb_prop in Q as [Qc Qf]. rewrite Qc in H.
-    destruct (copy_obj w recv (crecopy c)) as [[w1 self]|] eqn:CP; [|discriminate].
-    destruct (copy_obj_inv _ _ _ _ _ W CP) as (-> & E1 & W1 & F1).
-    destruct (run_effs w1 _ args (meffs m) chs) as [w2|] eqn:RE; [|discriminate].
-    assert (I1 : Inv w w1 (length (objs w)) (crecopy c)) by (split; [|split; [|split]]; auto).
-    destruct (run_effs_inv _ _ _ _ _ _ _ _ I1 Qf RE) as (E2 & W2 & _ & _).
-    destruct (mret m).
-    + inversion H; subst; auto.
-    + eapply new_obj_inv; eauto.
-    + destruct (deref w2 _ a); inversion H; subst; auto.
+    destruct (mret m) eqn:MR.
+    + destruct (exec_body _ c m w recv args chs) as [[w2 self]|] eqn:EB; [|discriminate].
+      destruct (exec_body_ext _ _ _ _ _ _ _ _ _ W Q EB) as [E2 W2].
+      destruct (finish_ext _ _ _ _ _ _ W2 H) as [E3 W3]. split; eauto using ext_trans.
+    + destruct (exec_body _ c m w recv args chs) as [[w2 self]|] eqn:EB; [|discriminate].
+      destruct (exec_body_ext _ _ _ _ _ _ _ _ _ W Q EB) as [E2 W2].
+      destruct (finish_ext _ _ _ _ _ _ W2 H) as [E3 W3]. split; eauto using ext_trans.
+    + destruct (exec_body _ c m w recv args chs) as [[w2 self]|] eqn:EB; [|discriminate].
+      destruct (exec_body_ext _ _ _ _ _ _ _ _ _ W Q EB) as [E2 W2].
+      destruct (finish_ext _ _ _ _ _ _ W2 H) as [E3 W3]. split; eauto using ext_trans.
+    + apply andb_prop in Q as [Q1 Q2].
+      destruct (exec_body _ c m w recv args (firstn _ chs)) as [[w2 self]|] eqn:EB; [|discriminate].
+      destruct (exec_body_ext _ _ _ _ _ _ _ _ _ W Q1 EB) as [E2 W2].
+      destruct (deref w2 self a) as [o|]; [|discriminate].
+      destruct (lookup_call T w2 o m0) as [[c2 k2]|]; [|discriminate].
+      destruct (exec_body _ c2 k2 w2 o args (skipn _ chs)) as [[w3 s3]|] eqn:EB2; [|discriminate].
+      destruct (exec_body_ext _ _ _ _ _ _ _ _ _ W2 Q2 EB2) as [E3 W3].
+      destruct (finish_ext _ _ _ _ _ _ W3 H) as [E4 W4]. split; eauto using ext_trans.
 Qed.
 
 (* ---------- the frame theorem, for an arbitrary table ---------- *)
@@ -397,14 +439,28 @@ Proof.
   destruct p, x; cbn in *; congruence.
 Qed.
 
+Lemma fired_ok_static R : forall es chs, forallb (eff_safe R) es = true -> fired_ok true R es chs = true.
+Proof. intros es chs H. rewrite fired_ok_true. now apply fired_safe_static. Qed.
+
+Lemma meth_safe_quiet T w recv mn args chs wrap c m :
+  lookup_call T w recv mn = Some (c, m) -> meth_safe c m = true -> immutable_false w recv = false ->
+  step_quiet T w (SCall recv mn args chs wrap) = true.
+Proof.
+  intros LC MS IM. cbn. rewrite LC. unfold meth_safe in MS. apply andb_prop in MS as [MS M3]. apply andb_prop in MS as [M1 M2].
+  assert (CN : copies_now w recv m = true) by (unfold copies_now; rewrite M1, IM; reflexivity).
+  destruct (mret m); try discriminate; rewrite CN; now apply fired_ok_static.
+Qed.
+
 Lemma uses_quiet T P w s : forallb (pair_safe T) P = true -> step_uses P w s = true -> step_quiet T w s = true.
 Proof.
-  intros HP. destruct s as [|recv mn args chs wrap]; cbn; auto.
-  destruct (nth_error (objs w) recv) as [ob|]; auto. intros H. apply andb_prop in H as [H1 H2].
+  intros HP. destruct s as [|recv mn args chs wrap]; cbn [step_uses]; auto.
+  destruct (lookup_call T w recv mn) as [[c m]|] eqn:LC; [|cbn; now rewrite LC].
+  unfold lookup_call in LC. destruct (nth_error (objs w) recv) as [ob|] eqn:E; [|discriminate].
+  intros H. apply andb_prop in H as [H1 H2]. apply negb_true_iff in H2.
   apply mem_pair_In in H1. rewrite forallb_forall in HP. specialize (HP _ H1). unfold pair_safe in HP. cbn in HP.
-  destruct (find_class T (ocls ob)) as [c|]; auto. destruct (find_meth (cmeths c) mn) as [m|]; auto.
-  unfold meth_safe in HP. apply andb_prop in HP as [M1 M2]. unfold copies_now. rewrite M1, H2. cbn.
-  now apply fired_safe_static.
+  destruct (find_class T (ocls ob)) as [c'|] eqn:FC; [|discriminate].
+  destruct (find_meth (cmeths c') mn) as [m'|] eqn:FM; [|discriminate]. inversion LC; subst.
+  eapply meth_safe_quiet; eauto. unfold lookup_call. now rewrite E, FC, FM.
 Qed.
 
 Theorem uses_history_quiet T P : forallb (pair_safe T) P = true ->
@@ -440,14 +496,16 @@ Fixpoint hist_immutable (T : table) (w : world) (h : list step) : bool :=
 
 Theorem safe_table_quiet T : safeb T = true -> forall h w, hist_immutable T w h = true -> hist_quiet T w h = true.
 Proof.
-  intros HS. induction h as [|s h IH]; intros w H; cbn in *; auto.
+  intros HS. induction h as [|s h IH]; intros w H; cbn [hist_quiet hist_immutable] in *; auto.
   destruct (exec_step T w s) as [[w1 r]|]; auto. apply andb_prop in H as [H1 H2]. rewrite IH, andb_true_r by auto.
-  destruct s as [|recv mn args chs wrap]; cbn in *; auto.
-  destruct (nth_error (objs w) recv) as [ob|]; auto.
-  destruct (find_class T (ocls ob)) as [c|] eqn:FC; auto. destruct (find_meth (cmeths c) mn) as [m|] eqn:FM; auto.
+  destruct s as [|recv mn args chs wrap]; auto. cbn in H1. apply negb_true_iff in H1.
+  destruct (lookup_call T w recv mn) as [[c m]|] eqn:LC; [|cbn; now rewrite LC].
+  eapply meth_safe_quiet; eauto.
+  unfold lookup_call in LC. destruct (nth_error (objs w) recv) as [ob|]; [|discriminate].
+  destruct (find_class T (ocls ob)) as [c'|] eqn:FC; [|discriminate].
+  destruct (find_meth (cmeths c') mn) as [m'|] eqn:FM; [|discriminate]. inversion LC; subst.
   unfold safeb in HS. rewrite forallb_forall in HS. specialize (HS _ (find_class_In _ _ _ FC)).
-  rewrite forallb_forall in HS. specialize (HS _ (find_meth_In _ _ _ FM)). unfold meth_safe in HS.
-  apply andb_prop in HS as [M1 M2]. unfold copies_now. rewrite M1, H1. cbn. now apply fired_safe_static.
+  rewrite forallb_forall in HS. exact (HS _ (find_meth_In _ _ _ FM)).
 Qed.
 
 Theorem immutability_generic T : safeb T = true ->
